@@ -41,6 +41,7 @@
 #undef private
 #undef protected
 #include "system/SetupSystem.h"
+#include "syslog/SysLog.h"
 #include "message/Message.h"
 
 using namespace muscle;
@@ -532,6 +533,7 @@ static void run_case(int k, const std::string & line)
 int main(int, char **)
 {
    CompleteSetupSystem css;
+   SetConsoleLogToStderr(true);   // an "ASSERTION FAILED: ..." line of a MASSERT must end up in the crash report, not between the result lines
    std::thread(watchdog).detach();
    char * line = NULL; size_t cap = 0; ssize_t len;
    int k = 0;
